@@ -257,6 +257,23 @@ def rules(ck, P):
         it = [n for n in ir.walk_nodes(b["body"]) if n.get("k") == "mcall" and n.get("name") in ("iter_coords", "into_iter_coords")]
         ok1 = len(it) == 1 and bp and al.hid(it[0]["recv"]) == bp[0]["hid"]
         ck.check(ok1, "R-DEFAULT", b["q"] + "|enumerates-arg", "coordinates come from iter_coords() of the argument box", "coordinates do not come from the argument box", ir.loc(b))
+        if ok1:
+            # every coordinate of the box is asked for: only 1:1 adaptors between iter_coords() and the collected list
+            chain = []
+            for y, ps, _ in ir.walk(b["body"]):
+                if y is it[0]:
+                    cur = y
+                    for p_ in reversed(ps):
+                        if p_.get("k") == "mcall" and ir.strip(p_["recv"]) is cur:
+                            chain.append(p_["name"])
+                            cur = p_
+                        elif p_.get("k") in ("paren", "try") and ir.strip(p_.get("e", {})) is cur:
+                            cur = p_
+                        else:
+                            break
+            lossy = [nm for nm in chain if nm not in ("collect", "map", "copied", "cloned", "into_iter", "iter", "rev", "enumerate", "inspect", "peekable", "by_ref")]
+            ck.check(not lossy, "R-DEFAULT", b["q"] + "|all-coords", "every coordinate of the box is looked up (adaptors after iter_coords(): %s)" % chain,
+                     "the default stream drops coordinates of the box before looking them up (%s after iter_coords()): tiles a single lookup returns are missing from the stream" % lossy, ir.loc(it[0]))
         gtd = [n for n in ir.walk_nodes(b["body"]) if n.get("k") == "mcall" and (n.get("q") or "").endswith("TilesReaderTrait::get_tile_data")]
         ok2 = False
         if len(gtd) == 1:
